@@ -1,6 +1,6 @@
 CONSTANTS
   Sessions = {"s1", "s2"}
-  Ghosts = {"null", "alias"}
+  Ghosts = {"null", "unknown", "foreign", "alias"}
   NodeSet = {"n"}
   Values = {1}
   SubIds = {}
@@ -8,9 +8,10 @@ CONSTANTS
   Devs = {}
   LevelSet = {"3"}
   Focus = "session"
-  MaxOps = 8
+  MaxOps = 9
   MaxProbes = 1
   SetLevels = {}
+  BadActivations = "leaf"
 INIT GInit
 NEXT GNext
 INVARIANT InvSessionRequired
